@@ -65,7 +65,7 @@ def requests(rng, case, e):
     return reqs
 
 
-def out_close(a, b, scale=None, square=False):
+def out_close(a, b, scale=None, square=False, rtol=None):
     for var in a:
         if var not in b:
             return False
@@ -81,7 +81,11 @@ def out_close(a, b, scale=None, square=False):
                 p, q = p * p, q * q
             if scale is not None:
                 q = q * scale
-            if not core.close_ff(p, q):
+            if rtol is not None:
+                # float32 storage: the library computes in float32 (rounding ~1e-7 relative) — rounding is not modelled
+                if (p != p) != (q != q) or (p == p and abs(p - q) > rtol * max(1.0, abs(p), abs(q))):
+                    return False
+            elif not core.close_ff(p, q):
                 return False
     return True
 
@@ -208,12 +212,64 @@ def model_corr(ctx, ncases):
                      tags={"function": e.name}, theorem="scoreEval")
 
 
+def dtype_relations(ctx, ncases):
+    """STORAGE DTYPE class: forecasts / observations stored as int64, int32 or float32 (the same labelled values) with
+    fractional float64 weights.  The weighted result must equal (i) the result for the same values stored as float64 and
+    (ii) w x the function's own unweighted pointwise output — a weight that is cast to the data's dtype, or a product
+    evaluated in integer arithmetic, fails here."""
+    rng = ctx.rng
+    for e in R.REGISTRY:
+        if not e.weights:
+            continue
+        for ci in range(ncases):
+            base = R.gen_case(rng, e, with_weights=True, nan_p=0.0)
+            case, store = R.retype_case(rng, e, base, store=("int64", "int32", "float32")[ci % 3])
+            if case is None:
+                continue
+            w = case.weights
+            vals = np.asarray(w.values, dtype=float)
+            frac = np.array([rng.choice([0.5, 0.25, 1.5, 0.75, 2.5, 0.125]) for _ in range(vals.size)]).reshape(vals.shape)
+            case.weights = w.copy(data=frac)       # fractional weights: truncation to an integer dtype would change them
+            ref = R.as_float64(case)
+            for req in ({"preserve_dims": "all"}, {}):
+                desc = R.describe(case, req)
+                desc["function"] = e.name
+                desc["storage"] = store
+                ctx.case("storage-dtype", desc)
+                ctx.tag("storage:" + store)
+                tags = {"function": e.name, "storage": store}
+                o1, ex1 = c01.safe_call(e, case, req)
+                o2, ex2 = c01.safe_call(e, ref, req)
+                if ex2 is not None:
+                    continue
+                if ex1 is not None:
+                    ctx.fail("storage-dtype", "property", e.name, "exception:" + core.exc_class(ex1), desc, observed=str(ex1)[:200],
+                             expected="the float64 result", tags=tags)
+                    continue
+                rtol = 1e-4 if store == "float32" else None
+                if not out_close(o1, o2, rtol=rtol):
+                    ctx.fail("storage-dtype", "property", e.name, "weighted-result-depends-on-storage-dtype", desc,
+                             observed=core.canon({k: R.to_labelled(v)[2] for k, v in o1.items()}),
+                             expected=core.canon({k: R.to_labelled(v)[2] for k, v in o2.items()}), tags=tags, theorem="weighted_pointwise")
+                    continue
+                if req == {"preserve_dims": "all"} and e.kind == "mean":
+                    on, exn = c01.safe_call(e, case, req, use_weights=False)
+                    if exn is None:
+                        exp = {var: on[var].astype(float) * case.weights for var in on}
+                        if not out_close(o1, exp, rtol=rtol):
+                            ctx.fail("storage-dtype", "property", e.name, "pointwise-not-w-times-unweighted", desc,
+                                     observed=core.canon({k: R.to_labelled(v)[2] for k, v in o1.items()}),
+                                     expected=core.canon({k: R.to_labelled(v)[2] for k, v in exp.items()}), tags=tags,
+                                     theorem="weighted_pointwise")
+
+
 def correspondence(ctx):
     model_corr(ctx, ctx.n(2, 10))
 
 
 def oracle(ctx, boost):
     relations(ctx, ctx.n(3, 20) * (3 if boost else 1))
+    dtype_relations(ctx, ctx.n(3, 12) * (2 if boost else 1))
 
 
 def replay(ctx, payload):
@@ -223,6 +279,7 @@ def replay(ctx, payload):
     try:
         R.REGISTRY[:] = [e for e in old if e.name == site] or old
         relations(c, 30)
+        dtype_relations(c, 12)
         model_corr(c, 10)
     finally:
         R.REGISTRY[:] = old
